@@ -1,5 +1,6 @@
 //! One module per family of properties; `run` dispatches a check, `replay` re-executes a saved case.
 
+pub mod binary;
 pub mod compat;
 pub mod conc;
 pub mod crash;
@@ -14,7 +15,7 @@ pub mod urgency;
 use crate::engine::{CheckResult, Fail, Report, Stats, Tier};
 use serde_json::Value;
 
-pub const ALL: &[&str] = &["C01", "C02", "C03", "C04", "C05", "C06", "C07", "C08", "C09", "C10", "C11", "C12", "C13", "C14", "C15", "C16", "C18", "C19", "C20"];
+pub const ALL: &[&str] = &["C01", "C02", "C03", "C04", "C05", "C06", "C07", "C08", "C09", "C10", "C11", "C12", "C13", "C14", "C15", "C16", "C17", "C18", "C19", "C20"];
 
 pub fn run(id: &str, tier: Tier, seed: u64) -> Option<Report> {
     match id {
@@ -27,6 +28,7 @@ pub fn run(id: &str, tier: Tier, seed: u64) -> Option<Report> {
         "C12" => Some(urgency::run(tier, seed)),
         "C13" => Some(diff::run(tier, seed)),
         "C14" | "C15" | "C16" | "C20" => Some(http::run(id, tier, seed)),
+        "C17" => Some(binary::run(tier, seed)),
         "C19" => Some(compat::run(tier, seed)),
         _ => None,
     }
@@ -46,6 +48,7 @@ fn replay_case(prop: &str, kind: &str, case: &Value, st: &mut Stats) -> Option<C
         "C12" => urgency::replay(kind, case, st),
         "C13" => diff::replay(kind, case, st),
         "C14" | "C15" | "C16" | "C20" => http::replay(prop, kind, case, st),
+        "C17" => binary::replay(kind, case, st),
         "C19" => compat::replay(kind, case, st),
         _ => return None,
     })
